@@ -338,6 +338,35 @@ def all_small_asts(table, ops3):
             yield neg(n1, binop(o1, A, neg(n2, binop(o2, B, C))))
 
 
+def all_three_op_asts(ops):
+    """All five tree shapes with three infix operators over distinct atoms, for every ordered operator triple."""
+    A, B, C, D = ref("a"), ref("b"), ref("c"), ref("d")
+    for o1, o2, o3 in itertools.product(ops, repeat=3):
+        yield binop(o3, binop(o2, binop(o1, A, B), C), D)
+        yield binop(o3, binop(o1, A, binop(o2, B, C)), D)
+        yield binop(o2, binop(o1, A, B), binop(o3, C, D))
+        yield binop(o1, A, binop(o3, binop(o2, B, C), D))
+        yield binop(o1, A, binop(o2, B, binop(o3, C, D)))
+
+
+# operators registered at precedences *adjacent* to built-in ones (one step above/below, both associativities): the
+# binding powers derived from neighbouring precedences must never collide
+ADJACENT_OPS = [("cat", 111, "left"), ("rcat", 109, "right"), ("otherwise", 19, "left"), ("rset", 21, "right"), ("pw", 121, "right"),
+                ("lw", 119, "left"), ("@@", 41, "left"), ("**", 39, "right"), ("lowest", 1, "left"), ("above", 201, "right")]
+# same precedence as a built-in level but the other associativity: outside C02 (a level groups one way), inside C12
+MIXED_OPS = [("beside", 110, "right"), ("lset", 20, "left")]
+ADJACENT_NEIGHBOURS = ["+", "-", "*", "=", "+=", "||", "&&", "in", "=="]
+
+def adjacent_table(base, mixed=False):
+    """(table, prelude): the documented table extended by ADJACENT_OPS, and the REG lines that register them."""
+    t = base.copy()
+    pre = []
+    for name, prec, assoc in ADJACENT_OPS + (MIXED_OPS if mixed else []):
+        t.infix[name] = (prec, False, assoc == "right")
+        pre.append("REG\tinfix\t%s\t%d\tcalc\t%s\t(arg 0)" % (hx(name), prec, assoc))
+    return t, pre
+
+
 # ---------------- character-level strings ----------------
 CHAR_ALPHABET = [" ", "\t", "\n", "(", ")", "[", "]", "{", "}", ",", ";", "0", "7", ".", "e", "+", "-", "<", "=", "!", "&",
                  "?", ":", "\"", "'", "a", "n", "_", "é", "✓", "😀", "@", "|", "*", "t", "\x0c", "\u00a0", "\u2028", "\r",
